@@ -1,5 +1,6 @@
 (** Property C13 -- the full report shows every transaction and fraction once, with the computed values.
-    Statements only (proofs: Proofs/FullReportLayout.v, FullReportProofs.v, FullReportCompute.v, FullReportWitness.v).
+    Statements only (proofs: Proofs/FullReportLayout.v, FullReportProofs.v, FullReportCompute.v, FullReportWitness.v,
+    FullReportTotal.v, FullReportSummary.v).
 
     They are about [Model/FullReport.v], the model of rp2_full_report.Generator.generate as its sequence of
     [_fill_cell] calls; table constants and column layouts are read from the source on every run (Generated.v,
@@ -9,7 +10,7 @@
 From RP2V Require Import Base.Prelude Base.Time Base.Dec Base.Assoc Model.Types Model.Generated Model.Txn Model.Matcher
   Model.Pipeline Model.Computed Model.Grid Model.ReportInput Model.FullReport
   Proofs.FullReportLayout Proofs.FullReportProofs Proofs.FullReportCompute Proofs.FullReportCapacity Proofs.FullReportLabels
-  Proofs.FullReportWitness Proofs.FullReportWitnessCap.
+  Proofs.FullReportWitness Proofs.FullReportWitnessCap Proofs.FullReportTotal Proofs.FullReportSummary.
 Open Scope Z_scope.
 
 (** the column layouts the statements below range over are the documented ones *)
@@ -198,6 +199,149 @@ Theorem C13_legend_cells : forall inp methods,
     = [cw (gen_full_legend_method_row + 2) 1 (if rp_to inp =? MAX_DAY then PStr s_non_specified else PDay (rp_to inp))].
 Proof. exact legend_cells. Qed.
 
+(** ---- Legend and Summary capacity; absolute Summary rows; every item of the window on exactly one row (Proofs/FullReportSummary.v,
+    Proofs/FullReportTotal.v)
+
+    EVERY sheet of a produced report passes [sheet_ok], the Legend and the Summary included: the Legend page and its three variable
+    cells lie inside the template's Legend sheet ([fe_legend_rows] x [fe_legend_cols]); the Summary sheet has the template's rows
+    plus one appended row per yearly line of every asset ([total_lines]: the [append_rows(new_lines)] calls), and the header and
+    every line written lie inside it *)
+Theorem C13_all_sheets_within_capacity : forall env inp sheets, full_report code_flags env inp = ROk sheets ->
+  exists acs methods, computed_all inp (rp_assets inp) = Ok acs /\ legend_methods code_flags (rp_sched inp) = ROk methods /\
+    let xs := actxs 0 acs (fe_extra env) in
+    sheets = {| sw_name := tr env gen_full_msg_legend; sw_rows := fe_legend_rows env; sw_cols := fe_legend_cols env;
+                sw_writes := legend_writes inp methods |}
+             :: {| sw_name := tr env gen_full_msg_summary; sw_rows := fe_summary_rows env + total_lines xs; sw_cols := fe_summary_cols env;
+                   sw_writes := fst (fill_header 0 gen_full_hdr_sum) ++ summary_all env inp gen_header_height xs |}
+             :: sheets_from code_flags env inp [] xs
+    /\ Forall (fun s => sheet_ok s = true) sheets.
+Proof. exact (full_report_sheets_ok code_flags). Qed.
+Theorem C13_total_lines_counts_yearly_lines : forall xs, total_lines xs = Z.of_nat (length (flat_map (fun x => cd_yearly (ac_c x)) xs)).
+Proof. exact total_lines_flat. Qed.
+
+(** ... and the report IS produced (the composed totality lemma of C16, whose Summary invariant is "next free row <= capacity"):
+    for ComputedData of every asset, a template that holds the input-independent cells ([fenv_fits]: Legend page, Summary header and
+    columns) and at most [max_holders] = 21 holders with a balance per asset (finding F12), no write of the report leaves its sheet *)
+Theorem C13_report_produced_within_capacity : forall env inp acs, fenv_fits env = true ->
+  computed_all inp (rp_assets inp) = Ok acs ->
+  (forall ac, In ac acs -> Z.of_nat (length (holder_totals inp (cd_balances (snd ac)))) <= max_holders) ->
+  exists sheets, full_report code_flags env inp = ROk sheets /\ Forall (fun s => sheet_ok s = true) sheets /\
+    exists legend summary rest, sheets = legend :: summary :: rest /\
+      sw_rows legend = fe_legend_rows env /\ sw_cols legend = fe_legend_cols env /\
+      sw_rows summary = fe_summary_rows env + total_lines (actxs 0 acs (fe_extra env)) /\ sw_cols summary = fe_summary_cols env.
+Proof. exact full_report_total_within. Qed.
+
+(** ABSOLUTE position of the Summary lines.  The Summary sheet is the second sheet; the asset contexts [xs] follow the assets of the
+    input in the input's order (the run hands them over sorted by name); the k-th yearly line of the j-th asset is written at row
+      header height (3) + number of yearly lines of the assets before it ([lines_before xs j]) + k,
+    each of its cells exactly once; all Summary writes lie in rows [0, 3 + number of all yearly lines) *)
+Theorem C13_summary_line_absolute_row : forall env inp sheets, full_report code_flags env inp = ROk sheets ->
+  exists acs ssum, computed_all inp (rp_assets inp) = Ok acs /\ nth_error sheets 1 = Some ssum /\
+    sw_name ssum = tr env gen_full_msg_summary /\
+    let xs := actxs 0 acs (fe_extra env) in
+    map ac_name xs = map ra_name (rp_assets inp) /\
+    sw_rows ssum = fe_summary_rows env + total_lines xs /\
+    box 0 (gen_header_height + total_lines xs) 0 gen_full_max_columns (sw_writes ssum) /\
+    forall j x k y col lk f,
+      nth_error xs j = Some x -> nth_error (cd_yearly (ac_c x)) k = Some y -> In (col, lk, f) gen_full_cols_sum ->
+      writes_at (sw_writes ssum) (gen_header_height + lines_before xs j + Z.of_nat k) col
+      = [cw (gen_header_height + lines_before xs j + Z.of_nat k) col (summary_field env x (ym_of inp x) k y lk f)].
+Proof. exact (report_summary_lines code_flags). Qed.
+Theorem C13_lines_before : forall xs j, lines_before xs j = total_lines (firstn j xs).
+Proof. reflexivity. Qed.
+
+(** what such a cell holds: the figure of the yearly line, and (C19) its link -- to the first detail row of the line's year in the
+    asset's Tax sheet, plain when no fraction of that year is shown.  Hypothesis as in C19: calendar years do not decrease along the
+    instant-sorted fractions shown (finding F9 for mixed UTC offsets) *)
+Theorem C13_summary_line_cell_linked : forall env inp xs j x k y col lk f,
+  nth_error xs j = Some x -> nth_error (cd_yearly (ac_c x)) k = Some y -> In (col, lk, f) gen_full_cols_sum ->
+  nondecr 1 (map g_year (cd_gls (ac_c x))) -> 0 < y_year y ->
+  writes_at (summary_sheet_writes env inp xs) (gen_header_height + lines_before xs j + Z.of_nat k) col
+  = [cw (gen_header_height + lines_before xs j + Z.of_nat k) col
+        (match first_idx (y_year y) (map g_year (cd_gls (ac_c x))) with
+         | Some i => PLink (tax_name env (ac_name x)) (tl_det (tax_layout_of inp x) + Z.of_nat i + 1) (summary_field env x [] k y L_none f)
+         | None => summary_field env x [] k y L_none f
+         end)].
+Proof. exact summary_line_absolute_linked. Qed.
+Theorem C13_summary_line_figures : forall env x k y,
+  summary_field env x [] k y L_none F_y_year = PInt (y_year y) /\
+  summary_field env x [] k y L_none F_asset = PStr (ac_name x) /\
+  summary_field env x [] k y L_none F_y_gain = PNum (y_gain y) /\
+  summary_field env x [] k y L_none F_cap_type = cap_type env (y_long y) /\
+  summary_field env x [] k y L_none F_y_type = PStr (type_text env (y_type y)) /\
+  summary_field env x [] k y L_none F_y_crypto = PNum (of_grid (y_crypto y)) /\
+  summary_field env x [] k y L_none F_y_fiat = PNum (y_fiat y) /\
+  summary_field env x [] k y L_none F_y_cost = PNum (y_cost y).
+Proof. exact summary_figures. Qed.
+
+(** different (asset, yearly line) pairs have different Summary rows; in particular the rows of different assets are disjoint *)
+Theorem C13_summary_rows_distinct : forall xs j x k j' x' k',
+  nth_error xs j = Some x -> (k < length (cd_yearly (ac_c x)))%nat ->
+  nth_error xs j' = Some x' -> (k' < length (cd_yearly (ac_c x')))%nat ->
+  lines_before xs j + Z.of_nat k = lines_before xs j' + Z.of_nat k' -> j = j' /\ k = k'.
+Proof. exact summary_rows_injective. Qed.
+Theorem C13_summary_rows_of_assets_disjoint : forall xs j x k j' x' k',
+  nth_error xs j = Some x -> (k < length (cd_yearly (ac_c x)))%nat ->
+  nth_error xs j' = Some x' -> (k' < length (cd_yearly (ac_c x')))%nat -> j <> j' ->
+  lines_before xs j + Z.of_nat k <> lines_before xs j' + Z.of_nat k'.
+Proof. exact summary_rows_of_assets_disjoint. Qed.
+
+(** THE COLLECTED STATEMENT.  An item of the window is [WItem kind j i]: the i-th in / out / intra transaction, yearly line, balance,
+    holder total, fraction ([KIn] .. [KFraction]) of the j-th asset as ComputedData holds them (window only, time order), or the
+    Summary line of its i-th yearly line ([KSummary]).  [item_row_cells xs it = Some (sheet, row, cells)] gives its sheet ([SSummary],
+    [SInOut j], [STax j]; position in the file [sheet_index]), its 0-based row and the cells of that row (defined for exactly the
+    items that exist: C13_item_positions).  For a produced report:
+      - every item's row carries it: every cell of the row is written exactly once, with the item's field (the per-table theorems);
+      - exactly one row: two items with the same sheet and row are the same item, and an item's row is none of the static rows
+        ([static_row]: title + two header rows above each table, the four rows of the average-price block, the Summary header);
+      - CONVERSE, no extra rows: every write of the Summary sheet and of every In-Out / Tax sheet lies on a static row or is one of
+        the cells of the row of an item -- by the two facts above, of exactly one item.  (From the model's write lists; that the
+        .ods holds nothing else is the [check_extra] half of the cell-by-cell comparison.) *)
+Theorem C13_every_window_row_once : forall env inp sheets, full_report code_flags env inp = ROk sheets ->
+  exists acs, computed_all inp (rp_assets inp) = Ok acs /\
+    let xs := actxs 0 acs (fe_extra env) in
+    map ac_name xs = map ra_name (rp_assets inp) /\ map ac_c xs = map snd acs /\
+    length sheets = (2 + 2 * length xs)%nat /\
+    (forall it sid r cells, item_row_cells code_flags env inp xs it = Some (sid, r, cells) ->
+       exists sh, nth_error sheets (sheet_index sid) = Some sh /\ cells <> [] /\
+                  forall w, In w cells -> cw_row w = r /\ writes_at (sw_writes sh) r (cw_col w) = [w]) /\
+    (forall it it' sid r cells cells', item_row_cells code_flags env inp xs it = Some (sid, r, cells) ->
+       item_row_cells code_flags env inp xs it' = Some (sid, r, cells') -> it = it') /\
+    (forall it sid r cells, item_row_cells code_flags env inp xs it = Some (sid, r, cells) -> static_row inp xs sid r = false) /\
+    (forall sid sh w, sid <> SLegend -> nth_error sheets (sheet_index sid) = Some sh -> In w (sw_writes sh) ->
+       static_row inp xs sid (cw_row w) = true \/
+       exists it cells, item_row_cells code_flags env inp xs it = Some (sid, cw_row w, cells) /\ In w cells).
+Proof. intros env inp sheets. exact (every_window_row_once code_flags env inp sheets eq_refl). Qed.
+(** where each kind of item is: sheet and row (the table starts of C13_in_out_rows / the Tax layout), and the item exists *)
+Theorem C13_item_positions : forall fl env inp xs kd j i sid r cells, item_row_cells fl env inp xs (WItem kd j i) = Some (sid, r, cells) ->
+  exists x, nth_error xs j = Some x /\
+    let IL := inout_rows_of (ac_c x) in let TL := tax_layout_of inp x in let n := Z.of_nat i in
+    match kd with
+    | KIn => sid = SInOut j /\ r = il_in IL + n /\ (i < length (cd_ins (ac_c x)))%nat
+    | KOut => sid = SInOut j /\ r = il_out IL + n /\ (i < length (cd_outs (ac_c x)))%nat
+    | KIntra => sid = SInOut j /\ r = il_intra IL + n /\ (i < length (cd_intras (ac_c x)))%nat
+    | KYearly => sid = STax j /\ r = tl_gls TL + n /\ (i < length (cd_yearly (ac_c x)))%nat
+    | KBalance => sid = STax j /\ r = tl_bal TL + n /\ (i < length (cd_balances (ac_c x)))%nat
+    | KTotal => sid = STax j /\ r = tl_tot TL + n /\ (i < length (holder_totals inp (cd_balances (ac_c x))))%nat
+    | KFraction => sid = STax j /\ r = tl_det TL + n /\ (i < length (drows (ac_c x)))%nat
+    | KSummary => sid = SSummary /\ r = gen_header_height + lines_before xs j + n /\ (i < length (cd_yearly (ac_c x)))%nat
+    end.
+Proof. exact item_inv. Qed.
+(** every position in the file is the position of some sheet id (Legend 0, Summary 1, In-Out of asset j 2 + 2j, its Tax 3 + 2j) *)
+Theorem C13_every_sheet_has_an_id : forall n, exists sid, sheet_index sid = n.
+Proof. exact sheet_index_onto. Qed.
+(** non-vacuity: the two-asset input of the C19 witnesses -- the report is produced, the second asset's first Summary line sits
+    below the lines of the first asset, its first fraction is on its own Tax sheet, every sheet passes [sheet_ok] *)
+Theorem C13_window_rows_nonvacuous :
+  exists sheets acs, full_report fixed_flags wenv w_f3 = ROk sheets /\ computed_all w_f3 (rp_assets w_f3) = Ok acs /\
+    let xs := actxs 0 acs (fe_extra wenv) in
+    length xs = 2%nat /\
+    (exists sid r cells, item_row_cells fixed_flags wenv w_f3 xs (WItem KSummary 1 0) = Some (sid, r, cells) /\
+        sid = SSummary /\ r = gen_header_height + lines_before xs 1 /\ 0 < lines_before xs 1 /\ cells <> []) /\
+    (exists sid r cells, item_row_cells fixed_flags wenv w_f3 xs (WItem KFraction 1 0) = Some (sid, r, cells) /\ sid = STax 1) /\
+    Forall (fun s => sheet_ok s = true) sheets.
+Proof. exact summary_position_example. Qed.
+
 Print Assumptions C13_layout_in_out.
 Print Assumptions C13_layout_tax.
 Print Assumptions C13_in_transaction_row.
@@ -224,3 +368,16 @@ Print Assumptions C13_labels_are_numbering.
 Print Assumptions C13_legend_methods.
 Print Assumptions C13_legend_refuted_keyed_by_1970.
 Print Assumptions C13_legend_cells.
+Print Assumptions C13_all_sheets_within_capacity.
+Print Assumptions C13_total_lines_counts_yearly_lines.
+Print Assumptions C13_report_produced_within_capacity.
+Print Assumptions C13_summary_line_absolute_row.
+Print Assumptions C13_lines_before.
+Print Assumptions C13_summary_line_cell_linked.
+Print Assumptions C13_summary_line_figures.
+Print Assumptions C13_summary_rows_distinct.
+Print Assumptions C13_summary_rows_of_assets_disjoint.
+Print Assumptions C13_every_window_row_once.
+Print Assumptions C13_item_positions.
+Print Assumptions C13_every_sheet_has_an_id.
+Print Assumptions C13_window_rows_nonvacuous.
